@@ -18,7 +18,7 @@ Requests:
   `http <get|post|other> <pathIsRoot 0|1> <leadWs> <firstIsBracket> (x | v <tokens>)`
         -> `<status> <json 0|1> ` + tokens of `[[body]?, log]`, or `dk`
   `ws <k> { <leadWs> <firstIsBracket> (x | v <tokens>) }` -> tokens of `[[wire...], log]` or `dk`
-  `pretty <k> <chunk length>*k <hex of all bytes read> (syntax <off> | type <off> | eof | other)`
+  `pretty <skippedBytes> <k> <chunk length>*k <hex of all bytes read> (syntax <off> | type <off> | eof | other)`
         -> `none` | `<line> <col>`  (pretty_error.go: where the caret goes)
   `f64 <number literal>` -> what json.Marshal writes for the float64 it parses to, or `err`
   `defaults` -> `<peekLimit n|-> <nullForNilResult 0|1> <silentNotificationErrors 0|1>` of `junoCfg`
@@ -227,10 +227,11 @@ def step (st : St) (line : String) : St × String :=
           render (.arr [.arr (wsWire outs), logJson (wsLog outs), .bool (wsClosed outs)]))
       | _ => (st, "bad-op")
     | none => (st, "bad-op")
-  | "pretty" :: k :: rest =>
-    match natOfChars k.toList with
-    | none => (st, "bad-op")
-    | some k =>
+  | "pretty" :: sk :: k :: rest =>
+    match natOfChars sk.toList, natOfChars k.toList with
+    | none, _ => (st, "bad-op")
+    | _, none => (st, "bad-op")
+    | some skipped, some k =>
       let lens := (rest.take k).map (fun w => natOfChars w.toList)
       match rest.drop k with
       | hex :: errToks =>
@@ -247,7 +248,7 @@ def step (st : St) (line : String) : St × String :=
           if ls.foldl (· + ·) 0 != bytes.length then (st, "bad-op") else
           let chunks : List (List UInt8) := (ls.foldl (fun (acc : List (List UInt8) × List UInt8) n =>
             (acc.1 ++ [acc.2.take n], acc.2.drop n)) ([], bytes)).1
-          match Pretty.position (Pretty.Win.writes {} chunks) err with
+          match Pretty.position (Pretty.Win.writes {} chunks) err skipped with
           | none => (st, "none")
           | some p => (st, s!"{p.line} {p.col}")
         | _, _ => (st, "bad-op")
